@@ -165,7 +165,7 @@ c11q = [job("H_C11_server_abandon", conc=True, reach=["checked"], n=n, k=k) for 
        [job("H_C11_client_cancel_unread", conc=True, reach=["checked"], m=m) for m in (1, 3, 4)] + [job("H_C11_client_cancel_unread", conc=True, reach=["checked"], m=m, sender=1) for m in (2, 3)] + [job("H_C11_failed_open", conc=True, reach=["checked"], m=m) for m in (1, 2, 3)] + [job("H_C11_failed_open_cc", conc=True, reach=["checked"], m=m) for m in (2, 3)]
 P["C11"] = {
  "title": "an abandoned stream never wedges its connection",
- "bounds": "server side: a handler returns after k of n client messages (n <= 3 quick / 5 thorough, all k < n), the peer keeps sending the rest and the trailer, then a probe unary request must be served; client side: a stream whose opening write is reported as failed after the peer has answered 1..3 times (multiplexer level and through ClientConn/Server); a finished stream or unary call receives 2..3 (thorough 4) further envelopes for its id, then a probe call must get its own reply; probes have no deadline (a wedge shows as a blocked goroutine); all interleavings",
+ "bounds": "server side: a handler returns after k of n client messages (n <= 3 quick / 5 thorough, all k < n), the peer keeps sending the rest and the trailer, then a probe unary request must be served; client side: a stream whose opening write is reported as failed after the peer has answered 1..3 times (multiplexer level and through ClientConn/Server); a caller cancels a stream with m <= 4 responses unread, optionally with a SendMsg in progress on a congested link; a finished stream or unary call receives 2..3 (thorough 4) further envelopes for its id, then a probe call must get its own reply; probes have no deadline (a wedge shows as a blocked goroutine); all interleavings",
  "assumptions": GEN_ASSUME,
  "quick": c11q,
  "thorough": c11q + [job("H_C11_server_abandon", conc=True, reach=["checked"], n=5, k=k) for k in (0, 2, 4)] + [job("H_C11_client_extra", conc=True, reach=["probe-ok"], mode=m, extra=4) for m in (0, 1)],
